@@ -108,7 +108,7 @@ def obligations(tier, rng):
     for f in ct_all:
         fut = refsem.has_future(f)
         for kind in ['ct-offline', 'ct-combined-off'] + ([] if fut else ['ct-online', 'ct-combined-on']):
-            for N in ([1, 2] if quick else [1, 2, 3]):
+            for N in ([1, 2] if quick or len(variables(f)) > 1 else [1, 2, 3]):
                 for extra in (['none', 'both'] if N == 2 and len(variables(f)) == 1 else ['none']):
                     out.append(ob('C17', 'supported', 'ok/%s/%s/N=%d/%s' % (kind, text(f), N, extra), f=f, N=N, kind=kind, extra=extra, order=N + 1,
                                   max_paths=30000, wall=900))
